@@ -115,7 +115,7 @@ def isclose(a, b, rtol=1.0e-5, atol=EPSILON):
 
 # locals: c, min, e, cnt, a
 # modifies _in_arc, _next_arc,
-@numba.njit(locals={"a": numba.uint32, "e": numba.uint32})
+@numba.njit(locals={"e": numba.uint32})
 def find_entering_arc(
     pivot_block_size,
     pivot_next_arc,
